@@ -1738,7 +1738,7 @@ func init() {
 			"Race detector reports of the workers are violations keyed by the innermost elk frames. distinct = workload kind x parameters",
 		NumCases: func(tier string) int {
 			if tier == "thorough" {
-				return 12000
+				return 2000
 			}
 			return 400
 		},
